@@ -26,6 +26,7 @@ class SeqProp:
     thorough_cases = 5000
     search_factor = 10
     driver_args = ()
+    allow_bad_op = False  # True where an op on a state that does not exist (failed constructor) is part of the protocol
 
     # ---- to be provided --------------------------------------------------------------------------------------------
     def corpus(self):
@@ -140,7 +141,7 @@ class SeqProp:
         po_mismatch = None
         mo_mismatch = None
         for c, mo, io in zip(cases, model_outs, impl_outs):
-            if "bad-op" in mo:
+            if "bad-op" in mo and not self.allow_bad_op:
                 raise HarnessError(f"{self.pid}: Lean driver rejected an op of a generated case: {c.ops[mo.index('bad-op')]}")
             report.add_case(c, self.key(c, io))
             self.histogram(report, c, io)
